@@ -298,8 +298,282 @@ def flat(src):
     return '\n'.join(l.strip() for l in src.split('\n'))
 
 
-def parse(relpath):
-    return ast.parse(open(os.path.join(REPO, 'src', 'numdifftools', relpath)).read())
+# ---- source normalisation -----------------------------------------------------------------------------------------------------------------
+# Behaviour-preserving rewrites a maintainer makes all the time are undone on the syntax tree before translation, so that they do
+# not break the tie (they are listed in status.json under `__normalised__`; the normaliser is part of the trusted base):
+#   1. a private helper (function or method) that was renamed: its body is identical up to the names of local variables to that of a
+#      helper of the baseline tree that no longer exists under its old name -> the old name is used throughout the file;
+#   2. a new module-level constant bound once to a literal (list / tuple / dict / number / string, `dict(k=literal, ..)`) that is never
+#      mutated -> its loads are replaced by the literal;
+#   3. a new module-level straight-line helper (`x = ..; ..; return e`) called as the whole right-hand side of an assignment or as a
+#      whole returned value -> the call is replaced by the body.
+# `shape_of` records, per file, what existed in the baseline tree (stored under `__shape__` by --update-baseline).
+NORMALISED = []
+RENAMES = {}        # relpath -> [(scope ('' or class name), new name, old name)]
+_SHAPE = {}
+
+
+class _Canon(ast.NodeTransformer):
+    """local names -> v0, v1, .. in order of first appearance (arguments first); docstrings removed"""
+
+    def __init__(self, fn):
+        self.map = {}
+        for a in fn.args.posonlyargs + fn.args.args + fn.args.kwonlyargs:
+            self.map.setdefault(a.arg, 'v%d' % len(self.map))
+        for node in ast.walk(fn):
+            if isinstance(node, ast.Name) and isinstance(node.ctx, ast.Store):
+                self.map.setdefault(node.id, 'v%d' % len(self.map))
+
+    def visit_Name(self, node):
+        return ast.copy_location(ast.Name(id=self.map.get(node.id, node.id), ctx=node.ctx), node)
+
+    def visit_arg(self, node):
+        return ast.arg(arg=self.map.get(node.arg, node.arg), annotation=None)
+
+
+def _canon(fn):
+    import copy
+    f = copy.deepcopy(fn)
+    if f.body and isinstance(f.body[0], ast.Expr) and isinstance(getattr(f.body[0], 'value', None), ast.Constant) \
+            and isinstance(f.body[0].value.value, str):
+        f.body = f.body[1:] or [ast.Pass()]
+    c = _Canon(f)
+    f = c.visit(f)
+    f.name = '_'
+    f.decorator_list = []
+    return ast.dump(f)
+
+
+def shape_of(mod):
+    sh = {'top': [], 'funcs': {}}
+    for n in mod.body:
+        if isinstance(n, ast.FunctionDef):
+            sh['top'].append(n.name)
+            sh['funcs'][n.name] = _canon(n)
+        elif isinstance(n, ast.ClassDef):
+            sh['top'].append(n.name)
+            for f in n.body:
+                if isinstance(f, ast.FunctionDef):
+                    sh['funcs'].setdefault(n.name + '.' + f.name, _canon(f))
+        elif isinstance(n, (ast.Assign, ast.AnnAssign)):
+            for t in (n.targets if isinstance(n, ast.Assign) else [n.target]):
+                for nm in ast.walk(t):
+                    if isinstance(nm, ast.Name):
+                        sh['top'].append(nm.id)
+        elif isinstance(n, (ast.Import, ast.ImportFrom)):
+            sh['top'].extend((a.asname or a.name).split('.')[0] for a in n.names)
+    return sh
+
+
+def _is_literal(v):
+    try:
+        ast.literal_eval(v)
+        return True
+    except (ValueError, TypeError, SyntaxError, MemoryError, RecursionError):
+        pass
+    if isinstance(v, ast.Call) and isinstance(v.func, ast.Name) and v.func.id == 'dict' and not v.args:
+        return all(k.arg is not None and _is_literal(k.value) for k in v.keywords)
+    return False
+
+
+def normalise(mod, relpath):
+    import copy
+    base = _SHAPE.get(relpath)
+    if not base:
+        return mod
+    now = shape_of(mod)
+    notes = []
+    # 1. renamed private helpers
+    ren = {}
+    scopes = {}
+    for k in now['funcs']:
+        scopes.setdefault(k.rpartition('.')[0], []).append(k)
+    for scope, keys in scopes.items():
+        gone = [k for k in base['funcs'] if k.rpartition('.')[0] == scope and k not in now['funcs']]
+        fresh = [k for k in keys if k not in base['funcs']]
+        for g in gone:
+            cands = [f for f in fresh if now['funcs'][f] == base['funcs'][g]]
+            old, = [g.rpartition('.')[2]]
+            if len(cands) == 1 and old.startswith('_') and not old.startswith('__'):
+                new = cands[0].rpartition('.')[2]
+                if new not in ren and new.startswith('_'):
+                    ren[new] = old
+                    RENAMES.setdefault(relpath, []).append((scope, new, old))
+                    fresh.remove(cands[0])
+    if ren:
+        for node in ast.walk(mod):
+            if isinstance(node, ast.FunctionDef) and node.name in ren:
+                node.name = ren[node.name]
+            elif isinstance(node, ast.Attribute) and node.attr in ren:
+                node.attr = ren[node.attr]
+            elif isinstance(node, ast.Name) and node.id in ren:
+                node.id = ren[node.id]
+        notes += ['%s: helper %s is the former %s (same body)' % (relpath, n_, o_) for n_, o_ in sorted(ren.items())]
+    known = set(base['top'])
+    # 2. new never-mutated module-level literal constants
+    consts = {}
+    for n in mod.body:
+        if isinstance(n, ast.Assign) and len(n.targets) == 1 and isinstance(n.targets[0], ast.Name) and n.targets[0].id not in known \
+                and _is_literal(n.value):
+            consts[n.targets[0].id] = n.value
+    if consts:
+        stores = {}
+        for node in ast.walk(mod):
+            if isinstance(node, ast.Name) and node.id in consts and not isinstance(node.ctx, ast.Load):
+                stores[node.id] = stores.get(node.id, 0) + 1
+            if isinstance(node, ast.Global):
+                for nm in node.names:
+                    stores[nm] = 99
+            # mutation through the name: x[..] = .., x.attr(..) calls, del x[..], augmented assignment
+            if isinstance(node, ast.Subscript) and isinstance(node.value, ast.Name) and node.value.id in consts \
+                    and not isinstance(node.ctx, ast.Load):
+                stores[node.value.id] = 99
+            if isinstance(node, ast.Attribute) and isinstance(node.value, ast.Name) and node.value.id in consts \
+                    and node.attr not in ('get', 'keys', 'values', 'items', 'index', 'count'):
+                stores[node.value.id] = 99
+        consts = {k: v for k, v in consts.items() if stores.get(k, 0) == 1}
+
+        class Inl(ast.NodeTransformer):
+            def visit_Name(self, node):
+                if isinstance(node.ctx, ast.Load) and node.id in consts:
+                    return ast.copy_location(copy.deepcopy(consts[node.id]), node)
+                return node
+        for n in mod.body:
+            if isinstance(n, (ast.FunctionDef, ast.ClassDef)):
+                Inl().visit(n)
+        notes += ['%s: new constant %s inlined' % (relpath, k) for k in sorted(consts)]
+    # 3. new straight-line module-level helpers
+    helpers = {}
+    for n in mod.body:
+        if isinstance(n, ast.FunctionDef) and n.name not in known and not n.decorator_list and not n.args.vararg and not n.args.kwarg \
+                and not n.args.kwonlyargs and not n.args.defaults:
+            body = n.body[1:] if (n.body and isinstance(n.body[0], ast.Expr) and isinstance(n.body[0].value, ast.Constant)) else n.body
+            if body and isinstance(body[-1], ast.Return) and body[-1].value is not None and \
+                    all(isinstance(st, ast.Assign) and all(isinstance(t, ast.Name) for t in st.targets) for st in body[:-1]):
+                helpers[n.name] = (n, body)
+    used = []
+    if helpers:
+        def expand(st, fn_locals):
+            call = st.value
+            if not (isinstance(call, ast.Call) and isinstance(call.func, ast.Name) and call.func.id in helpers and not call.keywords):
+                return None
+            h, body = helpers[call.func.id]
+            params = [a.arg for a in h.args.args]
+            if len(params) != len(call.args) or not all(isinstance(a, (ast.Name, ast.Constant)) for a in call.args):
+                return None
+            sub = dict(zip(params, call.args))
+            inner = {t.id for b in body[:-1] for t in b.targets}
+            if inner & (fn_locals | set(params)):
+                return None
+
+            class Sub(ast.NodeTransformer):
+                def visit_Name(self, node):
+                    if isinstance(node.ctx, ast.Load) and node.id in sub:
+                        return ast.copy_location(copy.deepcopy(sub[node.id]), node)
+                    return node
+            out = [Sub().visit(copy.deepcopy(b)) for b in body[:-1]]
+            last = copy.deepcopy(st)
+            last.value = Sub().visit(copy.deepcopy(body[-1].value))
+            used.append(call.func.id)
+            return out + [last]
+
+        def walk_body(stmts, fn_locals):
+            res = []
+            for st in stmts:
+                rep = expand(st, fn_locals) if isinstance(st, (ast.Assign, ast.Return)) and st.value is not None else None
+                if rep is not None:
+                    res.extend(rep)
+                    continue
+                for fld in ('body', 'orelse', 'finalbody'):
+                    if isinstance(getattr(st, fld, None), list) and not isinstance(st, (ast.FunctionDef, ast.ClassDef)):
+                        setattr(st, fld, walk_body(getattr(st, fld), fn_locals))
+                res.append(st)
+            return res
+        for fn in [x for x in ast.walk(mod) if isinstance(x, ast.FunctionDef) and x.name not in helpers]:
+            fn_locals = {a.arg for a in fn.args.args} | {x.id for x in ast.walk(fn) if isinstance(x, ast.Name) and isinstance(x.ctx, ast.Store)}
+            fn.body = walk_body(fn.body, fn_locals)
+        notes += ['%s: new helper %s inlined at its call sites' % (relpath, k) for k in sorted(set(used))]
+    if notes:
+        ast.fix_missing_locations(mod)
+        for x in notes:
+            if x not in NORMALISED:
+                NORMALISED.append(x)
+    return mod
+
+
+def path_table(fn, atoms, order):
+    """symbolic execution of a function made of local assignments, if/else and returns over a finite set of atomic conditions:
+    {truth assignment -> returned expression with the locals substituted}.  Anything else raises Unsupported."""
+    import copy
+    import itertools
+
+    def cond(test, val):
+        if isinstance(test, ast.UnaryOp) and isinstance(test.op, ast.Not):
+            return not cond(test.operand, val)
+        if isinstance(test, ast.BoolOp):
+            vs = [cond(v, val) for v in test.values]
+            return all(vs) if isinstance(test.op, ast.And) else any(vs)
+        key = ast.unparse(test)
+        if key not in atoms:
+            raise Unsupported('condition %s' % key)
+        name, pol = atoms[key]
+        return val[name] == pol
+
+    def subst(e, env):
+        class S(ast.NodeTransformer):
+            def visit_Name(self, node):
+                if isinstance(node.ctx, ast.Load) and node.id in env:
+                    return copy.deepcopy(env[node.id])
+                return node
+        return S().visit(copy.deepcopy(e))
+
+    def run(stmts, env, val):
+        for st in stmts:
+            if isinstance(st, ast.Expr) and isinstance(st.value, ast.Constant):
+                continue
+            if isinstance(st, ast.Assign) and len(st.targets) == 1 and isinstance(st.targets[0], ast.Name):
+                env[st.targets[0].id] = subst(st.value, env)
+            elif isinstance(st, ast.If):
+                r = run(st.body if cond(st.test, val) else st.orelse, env, val)
+                if r is not None:
+                    return r
+            elif isinstance(st, ast.Return) and st.value is not None:
+                return ast.unparse(subst(st.value, env))
+            else:
+                raise Unsupported('statement ' + ast.unparse(st)[:80])
+        return None
+    out = {}
+    for bits in itertools.product([True, False], repeat=len(order)):
+        r = run(fn.body, {}, dict(zip(order, bits)))
+        if r is None:
+            raise Unsupported('a path of %s returns nothing' % fn.name)
+        out[bits] = r
+    return out
+
+
+def compute_renames():
+    """the renamed private helpers of the current tree (see `normalise`), for the harness: {relpath: [(scope, new, old)]}"""
+    bpath = os.path.join(HERE, 'baseline.json')
+    shape = json.load(open(bpath)).get('__shape__', {}) if os.path.exists(bpath) else {}
+    saved = dict(_SHAPE)
+    _SHAPE.clear()
+    _SHAPE.update(shape)
+    RENAMES.clear()
+    try:
+        for f in shape:
+            try:
+                parse(f)
+            except (OSError, SyntaxError):
+                pass
+        return {k: list(v) for k, v in RENAMES.items()}
+    finally:
+        _SHAPE.clear()
+        _SHAPE.update(saved)
+
+
+def parse(relpath, raw=False):
+    mod = ast.parse(open(os.path.join(REPO, 'src', 'numdifftools', relpath)).read())
+    return mod if raw else normalise(mod, relpath)
 
 
 def find_class(mod, name):
@@ -560,14 +834,14 @@ deriving Repr
     try:
         ns = [f for f in cls.body if isinstance(f, ast.FunctionDef) and f.name == 'num_steps'
               and any(getattr(d, 'id', '') == 'property' for d in f.decorator_list)][0]
-        src = ast.unparse(ns)
-        expect = ("min_num_steps = self.min_num_steps\nif self._num_steps is not None:\n    num_steps = int(self._num_steps)\n"
-                  "    if self.check_num_steps:\n        num_steps = max(num_steps, min_num_steps)\n    return num_steps\n"
-                  "return min_num_steps + int(self.num_extrap)")
-        body = '\n'.join(l[4:] for l in src.split('\n')[2:] if not l.strip().startswith('"""'))
-        body = '\n'.join(l for l in body.split('\n') if l.strip())
-        if body.strip() != expect.strip():
-            raise Unsupported('num_steps property changed shape:\n' + body)
+        # decided by its path table (all truth assignments of the two atomic conditions, locals substituted), so that
+        # guard-clause inversions / if-else reorderings of the same decision do not break the tie
+        table = path_table(ns, {'self._num_steps is None': ('none', True), 'self._num_steps is not None': ('none', False),
+                                'self.check_num_steps': ('check', True)}, ['none', 'check'])
+        expect = {(True, True): 'self.min_num_steps + int(self.num_extrap)', (True, False): 'self.min_num_steps + int(self.num_extrap)',
+                  (False, True): 'max(int(self._num_steps), self.min_num_steps)', (False, False): 'int(self._num_steps)'}
+        if table != expect:
+            raise Unsupported('num_steps property changed: path table %r' % (table,))
         u.add('StepGen.num_steps', '''def StepGen.num_steps (self : StepGen) : Nat :=
   let min_num_steps := self.min_num_steps
   match self.numSteps with
@@ -1311,6 +1585,11 @@ def main(update_baseline=False):
     bpath = os.path.join(HERE, 'baseline.json')
     baseline = json.load(open(bpath)) if os.path.exists(bpath) else {}
     baseline.pop('__files__', None)
+    _SHAPE.clear()
+    _SHAPE.update({} if update_baseline else baseline.pop('__shape__', {}))
+    baseline.pop('__shape__', None)
+    del NORMALISED[:]
+    RENAMES.clear()
     status = {}
     units = []
     del EXTRA_UNITS[:]
@@ -1326,6 +1605,8 @@ def main(update_baseline=False):
         text = u.header + '\n' + '\n\n'.join(t for _k, t in u.items) + '\n\nend Ndt.Gen\n'
         files[u.fname] = text
         changed |= write_if_changed(os.path.join(GEN, u.fname), text)
+    if NORMALISED:
+        status['__normalised__'] = {'ok': True, 'rewrites': list(NORMALISED)}
     write_if_changed(os.path.join(GEN, 'status.json'), json.dumps(status, indent=1, sort_keys=True))
     if update_baseline:
         base = {}
@@ -1338,6 +1619,8 @@ def main(update_baseline=False):
                     ret = {v: k2 for k2, v in LT.items()}.get(m.group(1), 'nat')
                 base[k] = {'text': t, 'ret': ret}
         base['__files__'] = files
+        base['__shape__'] = {f: shape_of(parse(f, raw=True)) for f in sorted(os.listdir(os.path.join(REPO, 'src', 'numdifftools')))
+                             if f.endswith('.py')}
         json.dump(base, open(bpath, 'w'), indent=1, sort_keys=True)
     bad = {k: v for k, v in status.items() if not v.get('ok')}
     return status, bad, changed
